@@ -69,6 +69,115 @@ def _bound_kind(f: FuncInfo, rd: ReachingDefs, at: ast.AST, e: ast.AST) -> Tuple
     return "mixed:" + ",".join(sorted(kinds)), texts
 
 
+class Arr2(Stub):
+    """A bounds table: rows [lo, hi].  Row reads hand out the row itself (stores through it are seen), row stores copy the values."""
+
+    def __init__(self, rows):
+        self.rows = [list(r) for r in rows]
+
+    def __getitem__(self, k):
+        if isinstance(k, int):
+            return self.rows[k]
+        if isinstance(k, tuple) and len(k) == 2 and all(isinstance(x, int) for x in k):
+            return self.rows[k[0]][k[1]]
+        raise Unsupported("bounds[...] with a key other than a row number or (row, column)")
+
+    def __setitem__(self, k, v):
+        if isinstance(k, int):
+            self.rows[k] = list(v)
+        elif isinstance(k, tuple) and len(k) == 2 and all(isinstance(x, int) for x in k):
+            self.rows[k[0]][k[1]] = v
+        else:
+            raise Unsupported("bounds[...] = ... with a key other than a row number or (row, column)")
+
+    def _abs_len(self):
+        return len(self.rows)
+
+    def copy(self):
+        return Arr2(self.rows)
+
+
+def _widen(v: float) -> List[float]:
+    # fix_identical_bnds: a degenerate pair [v, v] becomes v -/+ 10**OoM(v); OoM(0) is 1 in the repository's helper
+    m = 10.0 if v == 0 else 10.0 ** math.floor(math.log10(abs(v)))
+    return [v - m, v + m]
+
+
+class _NPb(Stub):
+    @staticmethod
+    def sort(a, axis=-1):
+        if not isinstance(a, Arr2) or axis not in (1, -1):
+            raise Unsupported("np.sort other than row-wise on a bounds table")
+        return Arr2([sorted(r) for r in a.rows])
+
+    @staticmethod
+    def array(x, **k):
+        return Arr2(x) if isinstance(x, list) and x and isinstance(x[0], list) else x
+
+
+def _fix_identical(b):
+    if not isinstance(b, Arr2):
+        raise Unsupported("fix_identical_bnds of something that is not a bounds table")
+    return Arr2([_widen(r[0]) if r[0] == r[1] else r for r in b.rows])
+
+
+REPRESENTATIVE_ROWS = {"degenerate-at-zero": [0.0, 0.0], "negative-lower": [-5.0, 3.0], "degenerate-positive": [2.0, 2.0], "unsorted": [4.0, 1.0],
+                       "unsorted-negative": [3.0, -2.0], "regular": [0.0, 7.0]}
+
+
+def _check_update_bnds(chk, r1):
+    from engine.absint import ModuleEnv
+    from engine.pyinterp import InterpRaised, StubCall
+    cases = [(HTC, "_hdd_tidd_cdd_smooth_update_bnds", {True: "hdd_tidd_cdd_smooth", False: "hdd_tidd_cdd"}, ("beta", "k")),
+             (CHT, "_c_hdd_tidd_update_bnds", {True: "c_hdd_tidd_smooth", False: "c_hdd_tidd"}, ("k",))]   # the combined slope's sign tells heating from cooling
+    for mod, name, shapes, nonneg_kinds in cases:
+        f = chk.repo.func(mod, name)
+        for smooth, shape_key in shapes.items():
+            shp = list(SHAPES[shape_key])
+            fixed = [i for i, c in enumerate(shp) if _kind_of_coef(c) in ("bp", "intercept")]
+            nonneg = [i for i, c in enumerate(shp) if _kind_of_coef(c) in nonneg_kinds]
+            reference = [[40.0 + 3 * i, 60.0 + 3 * i] for i in range(len(shp))]
+            for pos in nonneg or [None]:
+                for rep, row in REPRESENTATIVE_ROWS.items():
+                    for given in (True, False):
+                        if not given and (pos != (nonneg or [None])[0] or rep != "regular"):
+                            continue
+                        start = [[0.0, 7.0] if _kind_of_coef(shp[i]) in ("beta", "k") else [100.0 + i, 101.0 + i] for i in range(len(shp))]
+                        if pos is not None:
+                            start[pos] = list(row)
+                        bn = [list(r) for r in reference]
+                        if not given:
+                            for i in range(len(shp)):
+                                if i not in fixed:
+                                    bn[i] = list(start[i])
+                        it = Interp(step_limit=20_000)
+                        env = ModuleEnv(chk.repo, f.module, it, {"np": _NPb(), "numpy": _NPb(), "fix_identical_bnds": StubCall(_fix_identical)})
+                        key = f"{f.key}|{shape_key}|{'row ' + str(pos) + ' ' + rep if pos is not None else 'regular'}|{'prior bounds given' if given else 'no prior bounds'}"
+                        try:
+                            out = Function(f.node, env, it)(Arr2(start) if given else None, Arr2(bn), smooth)
+                        except InterpRaised as e:
+                            r1.require(False, key, f.where(), f"{name} raises {e.exc_name}")
+                            continue
+                        except Unsupported as e:
+                            raise AnalysisError(f"{f.key}: uses an operation outside the modelled subset: {e}")
+                        if not isinstance(out, Arr2) or len(out.rows) != len(shp):
+                            r1.require(False, key, f.where(), f"{name} does not return the bounds table")
+                            continue
+                        bad = []
+                        for i in fixed:
+                            if out.rows[i] != reference[i]:
+                                bad.append(f"position {i} ({shp[i]}) must be reset to the model's own bounds {reference[i]}; returned {out.rows[i]}")
+                        for i, r in enumerate(out.rows):
+                            if not r[0] < r[1]:
+                                bad.append(f"position {i} ({shp[i]}) comes back as the empty or degenerate range {r}")
+                        for i in nonneg:
+                            if out.rows[i][0] < 0:
+                                bad.append(f"position {i} ({shp[i]}) comes back with the negative lower bound {out.rows[i][0]} (range {out.rows[i]}): the optimiser may return a negative "
+                                           f"{'slope' if _kind_of_coef(shp[i]) == 'beta' else 'smoothing parameter'}, i.e. usage falling away from the balance point")
+                        r1.require(not bad, key, f.where(), f"{name}(smooth={smooth}) on prior row {row if pos is not None else 'regular'}: " + "; ".join(bad[:2]),
+                                   sample={"function": name, "shape": shape_key, "position": pos, "row": rep})
+
+
 def run(chk):
     chk.explanation = (
         "Positional table agreement: in each base-model fit function the i-th entry of the bounds list has the kind (balance point / slope / "
@@ -148,32 +257,11 @@ def run(chk):
                 got["nonnegative-prior"] = unparse(s2.value)
     r1.require(got == {"initial": "[-max_slope, max_slope]", "negative-prior": "[-max_slope, 0]", "nonnegative-prior": "[0, max_slope]"},
                f"{f.key}|slope-sign-from-prior", f.where(), f"fit_c_hdd_tidd: the slope range must keep the sign of the prior slope (negative => heating) and be two-sided only on the initial fit; found {got}")
-    # update-bounds index constants
-    ub = chk.repo.func(HTC, "_hdd_tidd_cdd_smooth_update_bnds")
-    cfg = CFG(ub.node)
-    for s in cfg.stmts():
-        if isinstance(s, ast.Assign) and isinstance(s.targets[0], ast.Subscript) and unparse(s.targets[0].value) == "new_bnds" and isinstance(s.targets[0].slice, ast.Constant):
-            idx = s.targets[0].slice.value
-            g = [(unparse(tt), pol) for tt, pol in cfg.guards(s) if unparse(tt) == "smooth"]
-            shapes = [SHAPES["hdd_tidd_cdd_smooth"]] if ("smooth", True) in g else ([SHAPES["hdd_tidd_cdd"]] if ("smooth", False) in g else [SHAPES["hdd_tidd_cdd_smooth"], SHAPES["hdd_tidd_cdd"]])
-            same = unparse(s.value) == f"bnds[{idx}]"
-            kinds = {_kind_of_coef(shp[idx]) if idx < len(shp) else "out-of-range" for shp in shapes}
-            r1.require(same and kinds <= {"bp", "intercept"} and len(kinds) == 1, f"{ub.key}|reset:{idx}|{g}", ub.where(s),
-                       f"_hdd_tidd_cdd_smooth_update_bnds resets position {idx} ({kinds}) from `{unparse(s.value)}`: only balance-point and intercept positions may be reset, each from its own position")
-        if isinstance(s, ast.Assign) and unparse(s.targets[0]) == "beta_k_idx":
-            g = [(unparse(tt), pol) for tt, pol in cfg.guards(s) if unparse(tt) == "smooth"]
-            shp = SHAPES["hdd_tidd_cdd_smooth"] if ("smooth", True) in g else SHAPES["hdd_tidd_cdd"]
-            try:
-                idxs = ast.literal_eval(s.value)
-            except Exception:
-                idxs = None
-            want = [i for i, c in enumerate(shp) if _kind_of_coef(c) in ("beta", "k")]
-            r1.require(idxs == want, f"{ub.key}|beta_k_idx|{g}", ub.where(s), f"non-negativity clamp must cover every slope and smoothing position {want} of {list(shp)}; found {idxs}", sample={"shape": list(shp), "clamped": idxs})
-    clamp = [s for s in ast.walk(ub.node) if isinstance(s, ast.If) and unparse(s.test) == "new_bnds[i][0] < 0" and any(unparse(x) == "new_bnds[i][0] = 0" for x in s.body)]
-    r1.require(len(clamp) == 1, f"{ub.key}|clamp-lower-at-zero", ub.where(), "slope / smoothing lower bounds must be clamped at 0")
-    cub = chk.repo.func(CHT, "_c_hdd_tidd_update_bnds")
-    t = unparse(cub.node)
-    r1.require("new_bnds[0] = bnds[0]" in t and ("new_bnds[3] = bnds[3]" in t and "new_bnds[2] = bnds[2]" in t), f"{cub.key}|resets", cub.where(), "_c_hdd_tidd_update_bnds must reset the balance-point (0) and intercept (3 smooth / 2 unsmooth) positions")
+    # the bounds-preparation helpers are interpreted on small bound tables: one representative row on each side of every guard
+    # (degenerate at zero, degenerate away from zero, negative lower bound, unsorted) at every slope / smoothing position
+    _check_update_bnds(chk, r1)
+    chk.trusted.append("fix_identical_bnds widens a degenerate pair [v, v] to v -/+ 10**OoM(v) with OoM(0) = 1 (opendsm/common/utils.py:OoM_numba) and leaves other rows alone; "
+                       "np.sort(axis=1) orders each [lo, hi] pair")
 
     # ------------------------------------------------------------------ R12.2
     TAIL_MODEL = ["T_fit_bnds", "T"]
